@@ -81,9 +81,9 @@ def rand_field(rng, room):
         n = rng.choice(PODS)
         return "P:" + hx(rand_bytes(rng, n)), "p:%d" % n, n
     if k < 0.65:
-        n = rng.choice([0, 1, 3, 5, 7, 24, 100, rng.randrange(0, 300), max(room, 0), max(room - 1, 0), room + 1, 4096, 4097])
+        n = rng.choice([0, 1, 3, 5, 7, 24, 100, rng.randrange(0, 300), max(room, 0), max(room - 1, 0), room + 1] + ([4096, 4097] if room > 40 else []))
         return "F:" + hx(rand_bytes(rng, n)), "f:%d" % n, n
-    n = rng.choice([0, 0, 1, 2, 5, 17, 64, rng.randrange(0, 400), max(room - 4, 0), max(room - 5, 0), max(room - 3, 0), 4096, 4097, 4092])
+    n = rng.choice([0, 0, 1, 2, 5, 17, 64, rng.randrange(0, 400), max(room - 4, 0), max(room - 5, 0), max(room - 3, 0)] + ([4096, 4097, 4092] if room > 40 else []))
     return "S:" + hx(rand_bytes(rng, n)), "s", 4 + n
 
 
@@ -386,4 +386,6 @@ def run(res, tier):
     std.run_standard(res, PID, tier, area="typedmsg", build_impl=impl, gen_cases=gen_cases, oracle=oracle,
                      corr_name="TypedmsgModel vs src/ipc/TypedMsgHdr.cc",
                      gens=["typedmsg"], n_quick=10000, n_thorough=400000, seed_salt=58, mutate=mutate,
-                     kind_fn=kind, nontrivial_fn=nontrivial)
+                     kind_fn=kind, nontrivial_fn=nontrivial,
+                     # a small quarantine keeps ASan from mapping fresh memory for every 4 KB message / 64 KB stub pool object
+                     impl_env={"ASAN_OPTIONS": "detect_leaks=0:abort_on_error=0:quarantine_size_mb=4"})
